@@ -1,14 +1,16 @@
 // Correspondence harness for C08: the real GPFPrediction / GPFCorrection wrapping the real
 // KFPrediction / UKFPrediction and KFCorrection / UKFCorrection / SUKFCorrection.
 //
-//   gpfh n k m seed predKind corrKind alpha beta kappa sub  F Q H R  <trans>  <set>  nsteps <step>*
+//   gpfh n k m seed predKind corrKind alpha beta kappa sub exo <trans> <set> nsteps <step>*
 //     predKind 0 KF, 1 UKF(additive) ; corrKind 0 KF, 1 UKF(additive), 2 SUKF(sub-size `sub`)
-//     <trans> = 0 A(n×n) b(n) c     harness-defined density  c / (1 + |cur − A prev − b|²)
+//     exo     = 1: an ExogenousModel u(x) = G x + g is attached to the wrapped prediction's state model
+//     <trans> = 0                   harness-defined density  c / (1 + |cur − A prev − b|²), A b c per step
 //             | 1 T qtilde          the shipped WhiteNoiseAcceleration (n = 2, 4, 6)
 //     <set>   = states(n×k) means(n×k) covs(n×nk) logweights(k)
-//     <step>  = P skip
-//             | C skip move y(m) valid <lik>      (move: move-construct the GPFCorrection object first)
+//     <step>  = P skip F(n×n) Q(n×n) [exo: exoSkip G(n×n) g(n)]
+//             | C skip move inplace H(m×n) R(m×m) [trans 0: A(n×n) b(n) c] y(m) valid <lik>
 //     <lik>   = 0 l(k) | 1 c(k) a(n) | 2 scale          (2 = the shipped GaussianLikelihood)
+//   All models may change from step to step (same sizes): the model objects read them from a script.
 //
 // One GPFPrediction and one GPFCorrection object live through the whole history (so the random
 // stream continues from step to step); a twin mt19937_64 + normal_distribution with the same seed is
@@ -27,8 +29,9 @@
 #include <BayesFilters/UKFPrediction.h>
 #include <BayesFilters/UKFCorrection.h>
 #include <BayesFilters/SUKFCorrection.h>
-#include <BayesFilters/LTIStateModel.h>
-#include <BayesFilters/LTIMeasurementModel.h>
+#include <BayesFilters/LinearStateModel.h>
+#include <BayesFilters/LinearMeasurementModel.h>
+#include <BayesFilters/ExogenousModel.h>
 #include <BayesFilters/LikelihoodModel.h>
 #include <BayesFilters/GaussianLikelihood.h>
 #include <BayesFilters/WhiteNoiseAcceleration.h>
@@ -41,28 +44,45 @@ using namespace Eigen;
 using vh::Toks; using vh::Out;
 
 struct Script {
+    // the models of the current step (they may change from step to step at fixed sizes)
+    MatrixXd F, Q, H, R, A, G; VectorXd b, g; double c = 1.0;
     VectorXd y; bool lik_valid = true; int lik_kind = 0; VectorXd lik_c, lik_a;
     // what the likelihood model returned in its last call (recorded by the harness-defined models)
     int rec_calls = 0; bool rec_valid = false; VectorXd rec_l;
     std::pair<bool, VectorXd> record(std::pair<bool, VectorXd> r) { ++rec_calls; rec_valid = r.first; rec_l = r.second; return r; }
 };
 
-struct HState : public LTIStateModel {
-    HState(const MatrixXd& F, const MatrixXd& Q) : LTIStateModel(F, Q), n_(F.rows()) {}
-    VectorDescription getStateDescription() override { return VectorDescription(n_); }
-    std::size_t n_;
-};
-
-struct HMeas : public LTIMeasurementModel {
-    HMeas(const MatrixXd& H, const MatrixXd& R, std::shared_ptr<Script> s) : LTIMeasurementModel(H, R), s_(s) {}
-    bool freeze(const Data&) override { return true; }
-    std::pair<bool, Data> measure(const Data&) const override { MatrixXd y = s_->y; return std::make_pair(true, Data(y)); }
-    VectorDescription getInputDescription() const override { return VectorDescription(H_.cols(), 0, R_.rows()); }
-    VectorDescription getMeasurementDescription() const override { return VectorDescription(H_.rows()); }
+// x' = F x (+ u(x)) + w, F and Q read from the script at every call
+struct HState : public LinearStateModel {
+    explicit HState(std::shared_ptr<Script> s) : s_(s) {}
+    MatrixXd getStateTransitionMatrix() override { return s_->F; }
+    MatrixXd getNoiseCovarianceMatrix() override { return s_->Q; }
+    bool setProperty(const std::string&) override { return false; }
+    VectorDescription getStateDescription() override { return VectorDescription(s_->F.rows()); }
     std::shared_ptr<Script> s_;
 };
 
-// scripted likelihood: a fixed vector, or a function of the positions it is handed
+// u(x) = G x + g, column-wise (state-dependent and constant part), read from the script
+struct HExo : public ExogenousModel {
+    explicit HExo(std::shared_ptr<Script> s) : s_(s) {}
+    void propagate(const Ref<const MatrixXd>& cur, Ref<MatrixXd> prop) override { prop = (s_->G * cur).colwise() + s_->g; }
+    bool setProperty(const std::string&) override { return false; }
+    VectorDescription getStateDescription() const override { return VectorDescription(s_->g.size()); }
+    std::shared_ptr<Script> s_;
+};
+
+// y = H x + v, H, R and the measurement read from the script at every call
+struct HMeas : public LinearMeasurementModel {
+    explicit HMeas(std::shared_ptr<Script> s) : s_(s) {}
+    MatrixXd getMeasurementMatrix() const override { return s_->H; }
+    std::pair<bool, MatrixXd> getNoiseCovarianceMatrix() const override { return std::make_pair(true, s_->R); }
+    bool freeze(const Data&) override { return true; }
+    std::pair<bool, Data> measure(const Data&) const override { MatrixXd y = s_->y; return std::make_pair(true, Data(y)); }
+    VectorDescription getInputDescription() const override { return VectorDescription(s_->H.cols(), 0, s_->R.rows()); }
+    VectorDescription getMeasurementDescription() const override { return VectorDescription(s_->H.rows()); }
+    std::shared_ptr<Script> s_;
+};
+
 struct HLik : public LikelihoodModel {
     explicit HLik(std::shared_ptr<Script> s) : s_(s) {}
     std::pair<bool, VectorXd> likelihood(const MeasurementModel&, const Ref<const MatrixXd>& states) override {
@@ -85,20 +105,20 @@ struct HGaussLik : public GaussianLikelihood {
     std::shared_ptr<Script> s_;
 };
 
-// harness-defined transition density, not symmetric in (prev, cur)
+// harness-defined transition density, not symmetric in (prev, cur); A, b, c read from the script
 struct HTrans : public StateModel {
-    HTrans(const MatrixXd& A, const VectorXd& b, double c) : A_(A), b_(b), c_(c) {}
-    void propagate(const Ref<const MatrixXd>& cur, Ref<MatrixXd> prop) override { prop = A_ * cur; }
-    void motion(const Ref<const MatrixXd>& cur, Ref<MatrixXd> mot) override { mot = A_ * cur; }
+    explicit HTrans(std::shared_ptr<Script> s) : s_(s) {}
+    void propagate(const Ref<const MatrixXd>& cur, Ref<MatrixXd> prop) override { prop = s_->A * cur; }
+    void motion(const Ref<const MatrixXd>& cur, Ref<MatrixXd> mot) override { mot = s_->A * cur; }
     bool setProperty(const std::string&) override { return false; }
-    VectorDescription getInputDescription() override { return VectorDescription(A_.rows()); }
-    VectorDescription getStateDescription() override { return VectorDescription(A_.rows()); }
+    VectorDescription getInputDescription() override { return VectorDescription(s_->A.rows()); }
+    VectorDescription getStateDescription() override { return VectorDescription(s_->A.rows()); }
     VectorXd getTransitionProbability(const Ref<const MatrixXd>& prev, const Ref<const MatrixXd>& cur) override {
         VectorXd t(cur.cols());
-        for (long i = 0; i < cur.cols(); ++i) t(i) = c_ / (1.0 + (cur.col(i) - A_ * prev.col(i) - b_).squaredNorm());
+        for (long i = 0; i < cur.cols(); ++i) t(i) = s_->c / (1.0 + (cur.col(i) - s_->A * prev.col(i) - s_->b).squaredNorm());
         return t;
     }
-    MatrixXd A_; VectorXd b_; double c_;
+    std::shared_ptr<Script> s_;
 };
 
 static void readSet(Toks& t, ParticleSet& p, long n, long k) {
@@ -121,22 +141,23 @@ static bool sameSet(const ParticleSet& a, const ParticleSet& b) {
            vh::same_bits(a.covariance(), b.covariance()) && vh::same_bits(a.weight(), b.weight());
 }
 
-static std::unique_ptr<GaussianPrediction> makePred(int kind, const MatrixXd& F, const MatrixXd& Q, double a, double b, double kp) {
-    if (kind == 0) return std::unique_ptr<GaussianPrediction>(new KFPrediction(std::unique_ptr<LinearStateModel>(new HState(F, Q))));
-    if (kind == 1) return std::unique_ptr<GaussianPrediction>(new UKFPrediction(std::unique_ptr<AdditiveStateModel>(new HState(F, Q)), a, b, kp));
+static std::unique_ptr<GaussianPrediction> makePred(int kind, std::shared_ptr<Script> s, bool exo, double a, double b, double kp) {
+    std::unique_ptr<HState> sm(new HState(s));
+    if (exo) sm->add_exogenous_model(std::unique_ptr<ExogenousModel>(new HExo(s)));
+    if (kind == 0) return std::unique_ptr<GaussianPrediction>(new KFPrediction(std::unique_ptr<LinearStateModel>(std::move(sm))));
+    if (kind == 1) return std::unique_ptr<GaussianPrediction>(new UKFPrediction(std::unique_ptr<AdditiveStateModel>(std::move(sm)), a, b, kp));
     throw vh::BadArgs("predKind");
 }
 
-static std::unique_ptr<GaussianCorrection> makeCorr(int kind, const MatrixXd& H, const MatrixXd& R, std::shared_ptr<Script> s,
-                                                    double a, double b, double kp, long sub) {
-    if (kind == 0) return std::unique_ptr<GaussianCorrection>(new KFCorrection(std::unique_ptr<LinearMeasurementModel>(new HMeas(H, R, s))));
-    if (kind == 1) return std::unique_ptr<GaussianCorrection>(new UKFCorrection(std::unique_ptr<AdditiveMeasurementModel>(new HMeas(H, R, s)), a, b, kp));
-    if (kind == 2) return std::unique_ptr<GaussianCorrection>(new SUKFCorrection(std::unique_ptr<AdditiveMeasurementModel>(new HMeas(H, R, s)), a, b, kp, sub, false));
+static std::unique_ptr<GaussianCorrection> makeCorr(int kind, std::shared_ptr<Script> s, double a, double b, double kp, long sub) {
+    if (kind == 0) return std::unique_ptr<GaussianCorrection>(new KFCorrection(std::unique_ptr<LinearMeasurementModel>(new HMeas(s))));
+    if (kind == 1) return std::unique_ptr<GaussianCorrection>(new UKFCorrection(std::unique_ptr<AdditiveMeasurementModel>(new HMeas(s)), a, b, kp));
+    if (kind == 2) return std::unique_ptr<GaussianCorrection>(new SUKFCorrection(std::unique_ptr<AdditiveMeasurementModel>(new HMeas(s)), a, b, kp, sub, false));
     throw vh::BadArgs("corrKind");
 }
 
-static std::unique_ptr<StateModel> makeTrans(int kind, long n, const MatrixXd& A, const VectorXd& b, double c, double T, double q) {
-    if (kind == 0) return std::unique_ptr<StateModel>(new HTrans(A, b, c));
+static std::unique_ptr<StateModel> makeTrans(int kind, long n, std::shared_ptr<Script> s, double T, double q) {
+    if (kind == 0) return std::unique_ptr<StateModel>(new HTrans(s));
     WhiteNoiseAcceleration::Dim d;
     if (n == 2) d = WhiteNoiseAcceleration::Dim::OneD;
     else if (n == 4) d = WhiteNoiseAcceleration::Dim::TwoD;
@@ -151,18 +172,19 @@ static std::string gpfh(Toks& t) {
     int predKind = (int)t.nat(), corrKind = (int)t.nat();
     double alpha = t.dbl(), beta = t.dbl(), kappa = t.dbl();
     long sub = t.nat();
-    MatrixXd F = t.mat(n, n), Q = t.mat(n, n), H = t.mat(m, n), R = t.mat(m, m);
+    bool exo = t.flag();
     int transKind = (int)t.nat();
-    MatrixXd A; VectorXd b; double c = 0, T = 0, qt = 0;
-    if (transKind == 0) { A = t.mat(n, n); b = t.vec(n); c = t.dbl(); }
-    else if (transKind == 1) { T = t.dbl(); qt = t.dbl(); }
-    else throw vh::BadArgs("transKind");
+    double T = 0, qt = 0;
+    if (transKind == 1) { T = t.dbl(); qt = t.dbl(); }
+    else if (transKind != 0) throw vh::BadArgs("transKind");
     ParticleSet cur(k, n);
     readSet(t, cur, n, k);
     long nsteps = t.nat();
 
     auto script = std::make_shared<Script>();
     script->y = VectorXd::Zero(m);
+    script->A = MatrixXd::Identity(n, n); script->b = VectorXd::Zero(n);
+    script->G = MatrixXd::Zero(n, n); script->g = VectorXd::Zero(n);
     // likelihood kind is fixed by the first correction that names it; read ahead lazily: the objects
     // are built on first use
     std::unique_ptr<GPFPrediction> gpfp;
@@ -171,7 +193,7 @@ static std::string gpfh(Toks& t) {
     std::unique_ptr<GPFCorrection> gpfc;
     GaussianCorrection* wrappedC = nullptr;
     std::unique_ptr<GaussianCorrection> directC;
-    std::unique_ptr<StateModel> directT = makeTrans(transKind, n, A, b, c, T, qt);
+    std::unique_ptr<StateModel> directT = makeTrans(transKind, n, script, T, qt);
     int builtLikKind = -1;
 
     std::mt19937_64 twin(seed);
@@ -193,14 +215,19 @@ static std::string gpfh(Toks& t) {
         dout.mean().setConstant(12345.0); dout.covariance().setConstant(-54321.0); dout.weight().setConstant(-999.0);
         ParticleSet in0 = cur;
         if (kind == "P") {
+            // this step's state model: F, Q and (if attached) the exogenous law u(x) = G x + g
+            script->F = t.mat(n, n); script->Q = t.mat(n, n);
+            bool exoSkip = false;
+            if (exo) { exoSkip = t.flag(); script->G = t.mat(n, n); script->g = t.vec(n); }
             if (!gpfp) {
-                std::unique_ptr<GaussianPrediction> w = makePred(predKind, F, Q, alpha, beta, kappa);
+                std::unique_ptr<GaussianPrediction> w = makePred(predKind, script, exo, alpha, beta, kappa);
                 wrappedP = w.get();
                 gpfp.reset(new GPFPrediction(std::move(w)));
-                directP = makePred(predKind, F, Q, alpha, beta, kappa);
+                directP = makePred(predKind, script, exo, alpha, beta, kappa);
             }
             wrappedP->skip("prediction", skip);
             directP->skip("prediction", skip);
+            if (exo && !skip) { wrappedP->skip("exogenous", exoSkip); directP->skip("exogenous", exoSkip); }
             gpfp->predict(cur, out);
             directP->predict(static_cast<const GaussianMixture&>(cur), dout);
             outSet(o, out);
@@ -208,6 +235,10 @@ static std::string gpfh(Toks& t) {
             o.s(sameSet(in0, cur) ? "in-same" : "in-modified");
         } else if (kind == "C") {
             bool mv = t.flag();
+            bool inplace = t.flag();
+            // this step's measurement model and transition density
+            script->H = t.mat(m, n); script->R = t.mat(m, m);
+            if (transKind == 0) { script->A = t.mat(n, n); script->b = t.vec(n); script->c = t.dbl(); }
             script->y = t.vec(m);
             script->lik_valid = t.flag();
             int lk = (int)t.nat();
@@ -217,13 +248,13 @@ static std::string gpfh(Toks& t) {
             else if (lk == 2) { scale = t.dbl(); }
             else throw vh::BadArgs("likKind");
             if (!gpfc) {
-                std::unique_ptr<GaussianCorrection> w = makeCorr(corrKind, H, R, script, alpha, beta, kappa, sub);
+                std::unique_ptr<GaussianCorrection> w = makeCorr(corrKind, script, alpha, beta, kappa, sub);
                 wrappedC = w.get();
                 std::unique_ptr<LikelihoodModel> lm;
                 if (lk == 2) lm.reset(new HGaussLik(scale, script)); else lm.reset(new HLik(script));
                 builtLikKind = (lk == 2) ? 2 : 0;
-                gpfc.reset(new GPFCorrection(std::move(lm), std::move(w), makeTrans(transKind, n, A, b, c, T, qt), seed));
-                directC = makeCorr(corrKind, H, R, script, alpha, beta, kappa, sub);
+                gpfc.reset(new GPFCorrection(std::move(lm), std::move(w), makeTrans(transKind, n, script, T, qt), seed));
+                directC = makeCorr(corrKind, script, alpha, beta, kappa, sub);
             } else if (((lk == 2) ? 2 : 0) != builtLikKind) throw vh::BadArgs("likKind-changed");
             if (mv) {   // move-construct the correction into a new object and destroy the source: the
                         // random stream must simply continue
@@ -232,7 +263,14 @@ static std::string gpfh(Toks& t) {
             }
             wrappedC->skip(skip);
             directC->skip(skip);
-            gpfc->correct(cur, out);
+            if (inplace) {
+                // the same object as input and output: must equal the out-of-place call whose output
+                // object initially holds the predicted set
+                ParticleSet io = cur;
+                gpfc->correct(io, io);
+                out = io;
+                dout = static_cast<const GaussianMixture&>(cur);
+            } else gpfc->correct(cur, out);
             directC->correct(static_cast<const GaussianMixture&>(cur), dout);
             outSet(o, out);
             o.m(dout.mean()); o.m(dout.covariance());
@@ -251,6 +289,7 @@ static std::string gpfh(Toks& t) {
             script->rec_calls = 0;
             // getLikelihood() of the step (reported, not decided upon)
             bool valid; VectorXd lik;
+            (void)gpfc->getLikelihood();            // repeated queries must not change anything
             std::tie(valid, lik) = gpfc->getLikelihood();
             o.s(valid ? "glik" : "gnolik"); o.n(valid ? lik.size() : 0); if (valid) o.m(lik);
         } else throw vh::BadArgs("step");
